@@ -147,7 +147,7 @@ class StmtMixin(CallMixin):
                     elif co is None and old.ty == NONE:
                         v = T.coerce(v, Opt(v.ty)) if not isinstance(v.ty, Opt) else v
                     elif co is None:
-                        raise Unsupported("local %s changes type %s -> %s (line %s)" % (n, old.ty, v.ty, self.cur_line))
+                        pass            # Python locals are untyped: `resp = io.BytesIO(resp)` simply rebinds
                 else:
                     cv.lv = v.lv
                     v = cv
@@ -162,6 +162,8 @@ class StmtMixin(CallMixin):
                     self.oblige(st, "none", "setattr-%s" % tgt.attr, z3.Not(T.opt_is_none(o)))
                     o = T.opt_val(o)
                     oty = o.ty
+                if oty == EXC and tgt.attr in ("__cause__", "__context__", "__traceback__", "__suppress_context__"):
+                    continue            # exception chaining metadata: no modelled effect
                 if not isinstance(oty, Ref):
                     raise Unsupported("attribute assignment on %s (line %s)" % (oty, self.cur_line))
                 fty = self.field_ty(oty.cls, tgt.attr)
